@@ -104,7 +104,7 @@ def run(P, R):
     r3 = R.rule('R3', 'producer/consumer nullability over the notification bus',
                 'for each NotificationHeaders member, if a producer can post None as data (literal None, or a result of '
                 'SupervisorProxy.xml_rpc - which has a `return None` path - not protected by a truthiness fact at the '
-                'push), the consumer chain tests the data before subscripting / iterating it', 5)
+                'push), the consumer chain tests the data before subscripting / iterating it', 4)
     nullable = notification_producers(P, R, r3)
     consumers = notification_consumers(P)
     for header in P.enum_members('NotificationHeaders'):
